@@ -46,6 +46,8 @@ impl Board {
         let (our_checkers, _) = self.calculate_checkers_and_pins(!self.side_to_move());
         // Opponent can't be in check while it's our turn
         soft_assert!(our_checkers.is_empty());
+        // Kings can never stand next to each other
+        soft_assert!(!get_king_moves(self.king(Color::White)).has(self.king(Color::Black)));
 
         true
     }
